@@ -915,7 +915,9 @@ impl<'a> Ctx<'a> {
                     }
                 }
                 if res == "ok" || res == "timed_out" {
-                    if let Some(a) = a_max {
+                    // (a `wait` is not interruptible: when the limit had already expired by the time
+                    // scrut started to communicate, stopping at once is all that can be asked)
+                    if let Some(a) = a_max.map(|a| a.max(cb_t)) {
                         if x > a.saturating_add(slack) {
                             out.push(v(
                                 "C14",
